@@ -17,9 +17,11 @@ import (
 
 // C08 — subscriptions: exact registry and exactly-once notification fan-out.
 //
-// Sequential part: one case = one World (local device with the server features S0 [1]/1 and S1 [2]/1 of the
-// same type, S2 [1]/2 of another type, NodeManagement as the special-role target, one local client feature as
-// wrong-role target; three peers that announce the *same* tree) and one history of 10-25 operations out of
+// Sequential part: one case = one World (local device with the server features S0 [1]/1, S1 [2]/1 and S3 [1,1]/1 of
+// the same type - sibling and parent/sub entities reuse the feature number -, S2 [1]/2 of another type, NodeManagement
+// as the special-role target, one local client feature as wrong-role target; three peers that announce the *same*
+// tree; in every second case a "mute" peer (x_mute.go: every send to it fails) that subscribed to every server
+// feature before them) and one history of 10-25 operations out of
 // {subscribe, unsubscribe, SetData, UpdateData, remote write, registry read}. A reference registry = set of
 // (server feature, peer, client feature) is driven by the same calls with the grant rule of the statement
 // evaluated on the harness's own trees; after every operation the result datagram, all taps, the core event
@@ -33,10 +35,11 @@ func init() {
 	rig.Register(&rig.Check{
 		ID:    "C08",
 		Floor: 600,
-		Rule: "sequential case = one World (4 local server features incl. NodeManagement, 1 local client feature, 3 identically numbered peers) and a seeded history of 10-25 operations " +
+		Rule: "sequential case = one World (5 local server features incl. NodeManagement, one of them in the sub-entity [1,1] with the type and feature number of the one in its parent [1]; 1 local client feature; 3 identically numbered peers; " +
+			"in every second case a peer without write handler, to which every send fails, is the first subscriber of every server feature) and a seeded history of 10-25 operations " +
 			"{subscribe (valid / duplicate / wrong role / wrong type / unknown entity / unknown feature, device part omitted in client and/or server address), unsubscribe (present / absent / another peer's pair / unknown), " +
-			"SetData, UpdateData, remote write, registry read}; non-trivial if it saw at least one grant, one rejection and one fan-out to >= 1 subscriber that was judged. " +
-			"concurrent case = 3 peer goroutines x 3-4 subscribe/unsubscribe calls and one publisher goroutine per server feature, checked with porcupine; non-trivial if at least one publish reached a subscriber and the check returned Ok or Illegal. " +
+			"SetData, UpdateData, remote write (a quarter of them aimed at the feature with the same number in the parent / sub / sibling entity of a subscribed one), registry read}; non-trivial if it saw at least one grant, one rejection and one fan-out to >= 1 subscriber that was judged. " +
+			"concurrent case = 3 peer goroutines x 3-4 subscribe/unsubscribe calls and one publisher goroutine per server feature (1-3 of [1]/1, [1,1]/1, [2]/1; mute first subscriber in every second case), checked with porcupine; non-trivial if at least one publish reached a subscriber and the check returned Ok or Illegal. " +
 			"distinct = hash of the operation shapes (kinds, features, outcomes) without payload values.",
 		Assumptions: []string{
 			"message handling and notification sending are synchronous, so the taps are complete when the call into the stack has returned",
@@ -44,6 +47,7 @@ func init() {
 			"a special-role client feature (the peer's own NodeManagement) is outside the statement: both outcomes are accepted, the reference follows the observed one",
 			"registry reads over the wire that stay unanswered are counted, not judged (that is C01's subject)",
 			"concurrent part: one publisher goroutine per server feature (two overlapping SetData calls on one function may legitimately both notify the later value)",
+			"'each remote feature currently subscribed' includes those whose entry follows that of a peer with a broken connection: the mute peer (SetupRemoteDevice with a nil writer) is not observed itself (no tap, not in the compared registries), only its effect on the others",
 		},
 		Parts: []rig.Part{
 			{Name: "seq", Cases: func(t rig.Tier) int { return map[rig.Tier]int{rig.Quick: 1200, rig.Thorough: 48000}[t] }, Run: c08Seq, Procs: 2},
@@ -82,6 +86,17 @@ type c08World struct {
 	subs    map[string]c08Entry     // reference registry
 	holder  map[string]c08Entry     // server name -> binding holder (for remote writes)
 	val     int
+	mute    *rig.Peer // first subscriber of every server feature, its connection cannot send (nil: none)
+	muteErr string
+}
+
+// c08Twins: server features that carry the same feature number in the parent, sub or sibling entity.
+var c08Twins = map[string][]string{"S0": {"S3", "S3", "S1"}, "S3": {"S0", "S0", "S1"}, "S1": {"S0", "S3"}}
+
+func (cw *c08World) dropMute() {
+	if cw.mute != nil {
+		cw.w.Local.RemoveRemoteDeviceConnection(cw.mute.Ski)
+	}
 }
 
 func newC08World(c *rig.Ctx) *c08World {
@@ -90,6 +105,7 @@ func newC08World(c *rig.Ctx) *c08World {
 	w := cw.w
 	e1 := w.AddEntity(model.EntityTypeTypeCEM, []uint{1}, 4*time.Second)
 	e2 := w.AddEntity(model.EntityTypeTypeCEM, []uint{2}, 4*time.Second)
+	e11 := w.AddEntity(model.EntityTypeTypeEV, []uint{1, 1}, 4*time.Second)
 	add := func(name string, f api.FeatureLocalInterface, fns ...model.FunctionType) {
 		l := &rkLocalFeat{Name: name, F: f, Typ: f.Type(), Role: f.Role(), Fns: fns}
 		cw.locals[name] = l
@@ -108,6 +124,11 @@ func newC08World(c *rig.Ctx) *c08World {
 	s1 := e2.GetOrAddFeature(model.FeatureTypeTypeDeviceClassification, model.RoleTypeServer)
 	s1.AddFunctionType(model.FunctionTypeDeviceClassificationUserData, true, true)
 	add("S1", s1, model.FunctionTypeDeviceClassificationUserData)
+	// the sub-entity [1,1] restarts the feature numbering: S3 is [1,1]/1 as S0 is [1]/1
+	s3 := e11.GetOrAddFeature(model.FeatureTypeTypeDeviceClassification, model.RoleTypeServer)
+	s3.AddFunctionType(model.FunctionTypeDeviceClassificationUserData, true, true)
+	s3.AddFunctionType(model.FunctionTypeDeviceClassificationManufacturerData, true, false)
+	add("S3", s3, model.FunctionTypeDeviceClassificationUserData, model.FunctionTypeDeviceClassificationManufacturerData)
 	add("NM", w.Local.NodeManagement(), model.FunctionTypeNodeManagementUseCaseData)
 	for _, f := range c08PeerFeats {
 		cw.pfeat[f.Name] = f
@@ -119,6 +140,15 @@ func newC08World(c *rig.Ctx) *c08World {
 		p.Announce(rkAnnounceList(c08PeerFeats))
 		p.Tap.Take()
 	}
+	if c.Index%2 == 1 {
+		cw.mute = addMutePeer(w, 0)
+		var subs []muteSub
+		for _, srv := range []string{"S0", "S1", "S2", "S3", "NM"} {
+			cli := cw.compatibleClients(srv)[0]
+			subs = append(subs, muteSub{cw.cliAddr(cw.mute, cli), cw.srvAddr(srv), cw.locals[srv].Typ})
+		}
+		cw.muteErr = muteSubscribeFirst(w, cw.mute, rkAnnounceList(c08PeerFeats), subs)
+	}
 	w.Core.Take()
 	return cw
 }
@@ -129,6 +159,8 @@ func (cw *c08World) srvAddr(name string) *model.FeatureAddressType {
 		return rig.FA(rig.LocalAddr, []uint{7}, 1)
 	case "unkFeat":
 		return rig.FA(rig.LocalAddr, []uint{1}, 99)
+	case "unkSub": // an entity below the existing sub-entity, feature number of its ancestors' features
+		return rig.FA(rig.LocalAddr, []uint{1, 1, 1}, 1)
 	}
 	a := *cw.locals[name].F.Address()
 	return &a
@@ -217,6 +249,11 @@ func c08Seq(c *rig.Ctx) {
 	cw := newC08World(c)
 	w := cw.w
 	defer w.Close()
+	defer cw.dropMute()
+	if cw.muteErr != "" {
+		c.Inconclusive("setup of the mute peer: %s", cw.muteErr)
+		return
+	}
 	r := c.Rand
 	var hist, shape []string
 	log := func(format string, a ...any) { hist = append(hist, fmt.Sprintf(format, a...)) }
@@ -224,7 +261,11 @@ func c08Seq(c *rig.Ctx) {
 		c.Violate(sig, "%s\n history:\n  %s", fmt.Sprintf(format, a...), strings.Join(hist, "\n  "))
 	}
 	grants, rejects, fanouts := 0, 0, 0
-	servers := []string{"S0", "S1", "S2", "NM"}
+	servers := []string{"S0", "S1", "S2", "S3", "NM"}
+	if cw.mute != nil {
+		hist = append(hist, "peer 'mute0' (its connection has no write handler) subscribed to S0, S1, S2, S3 and NM before everybody else")
+		c.Count("cases_with_a_mute_first_subscriber", 1)
+	}
 
 	takeAll := func() [][]model.DatagramType {
 		outs := make([][]model.DatagramType, len(w.Peers))
@@ -376,6 +417,27 @@ func c08Seq(c *rig.Ctx) {
 			}
 		}
 		if changed {
+			if cw.mute != nil {
+				c.Count("fanouts_judged_behind_a_mute_subscriber", 1)
+				c.Count("fanout_notifies_expected_behind_a_mute_subscriber", int64(len(subsHere)))
+			}
+			if srv == "S0" || srv == "S3" {
+				// the parent/sub-entity pair with one feature number: who is subscribed to the other one only?
+				other := map[string]string{"S0": "S3", "S3": "S0"}[srv]
+				here := map[string]bool{}
+				for _, e := range subsHere {
+					here[fmt.Sprint(e.peer, e.cli)] = true
+				}
+				only := 0
+				for _, e := range cw.entriesOnServer(other) {
+					if !here[fmt.Sprint(e.peer, e.cli)] {
+						only++
+					}
+				}
+				if only > 0 {
+					c.Count(fmt.Sprintf("nested_fanout:change_on_%s_while_%s_has_subscribers_that_%s_has_not", srv, other, srv), 1)
+				}
+			}
 			fanouts += len(subsHere)
 			c.Count("fanout_notifies_expected", int64(len(subsHere)))
 			c.Count(fmt.Sprintf("fanout_width_%d", len(subsHere)), 1)
@@ -424,15 +486,17 @@ func c08Seq(c *rig.Ctx) {
 				}
 				typ = cw.locals[srv].Typ
 			default:
-				switch r.Intn(9) {
+				switch r.Intn(10) {
+				case 9:
+					kind, cli, srv, typ = "unknown-subentity-server", "a", "unkSub", model.FeatureTypeTypeDeviceClassification
 				case 0:
 					kind, cli, srv, typ = "wrong-role-server", "f", "LC", model.FeatureTypeTypeMeasurement
 				case 1:
-					kind, cli, srv, typ = "wrong-role-client", "d", []string{"S0", "S1"}[r.Intn(2)], model.FeatureTypeTypeDeviceClassification
+					kind, cli, srv, typ = "wrong-role-client", "d", []string{"S0", "S1", "S3"}[r.Intn(3)], model.FeatureTypeTypeDeviceClassification
 				case 2:
 					kind, cli, srv, typ = "wrong-type-requested", "a", "S0", model.FeatureTypeTypeIdentification
 				case 3:
-					kind, cli, srv, typ = "wrong-type-client", "c", []string{"S0", "S1"}[r.Intn(2)], model.FeatureTypeTypeDeviceClassification
+					kind, cli, srv, typ = "wrong-type-client", "c", []string{"S0", "S1", "S3"}[r.Intn(3)], model.FeatureTypeTypeDeviceClassification
 				case 4:
 					kind, cli, srv, typ = "wrong-type-server", []string{"a", "b"}[r.Intn(2)], "S2", model.FeatureTypeTypeDeviceClassification
 				case 5:
@@ -440,9 +504,9 @@ func c08Seq(c *rig.Ctx) {
 				case 6:
 					kind, cli, srv, typ = "unknown-feature-server", "a", "unkFeat", model.FeatureTypeTypeDeviceClassification
 				case 7:
-					kind, cli, srv, typ = "unknown-entity-client", "unkEnt", []string{"S0", "S1"}[r.Intn(2)], model.FeatureTypeTypeDeviceClassification
+					kind, cli, srv, typ = "unknown-entity-client", "unkEnt", []string{"S0", "S1", "S3"}[r.Intn(3)], model.FeatureTypeTypeDeviceClassification
 				default:
-					kind, cli, srv, typ = "unknown-feature-client", "unkFeat", []string{"S0", "S1"}[r.Intn(2)], model.FeatureTypeTypeDeviceClassification
+					kind, cli, srv, typ = "unknown-feature-client", "unkFeat", []string{"S0", "S1", "S3"}[r.Intn(3)], model.FeatureTypeTypeDeviceClassification
 				}
 			}
 			ca, sa := cw.cliAddr(p, cli), cw.srvAddr(srv)
@@ -584,6 +648,19 @@ func c08Seq(c *rig.Ctx) {
 				}
 				if len(busy) > 0 {
 					srv = busy[r.Intn(len(busy))]
+				}
+			}
+			if r.Intn(4) == 0 {
+				// the feature that carries the same number in the parent, sub or sibling entity of a subscribed one:
+				// its change must not reach that one's subscribers
+				var tw []string
+				for _, s := range servers {
+					if len(cw.entriesOnServer(s)) > 0 {
+						tw = append(tw, c08Twins[s]...)
+					}
+				}
+				if len(tw) > 0 {
+					srv = tw[r.Intn(len(tw))]
 				}
 			}
 			if r.Intn(6) == 0 {
@@ -835,9 +912,12 @@ func c08Conc(c *rig.Ctx) {
 	r := c.Rand
 	e1 := w.AddEntity(model.EntityTypeTypeCEM, []uint{1}, 4*time.Second)
 	e2 := w.AddEntity(model.EntityTypeTypeCEM, []uint{2}, 4*time.Second)
+	e11 := w.AddEntity(model.EntityTypeTypeEV, []uint{1, 1}, 4*time.Second)
 	fn := model.FunctionTypeDeviceClassificationUserData
-	srvF := []api.FeatureLocalInterface{e1.GetOrAddFeature(model.FeatureTypeTypeDeviceClassification, model.RoleTypeServer), e2.GetOrAddFeature(model.FeatureTypeTypeDeviceClassification, model.RoleTypeServer)}
-	nSrv := 1 + r.Intn(2)
+	// S0 [1]/1, S1 [1,1]/1 (sub-entity of S0's entity, same feature number), S2 [2]/1 (sibling, same feature number)
+	srvF := []api.FeatureLocalInterface{e1.GetOrAddFeature(model.FeatureTypeTypeDeviceClassification, model.RoleTypeServer),
+		e11.GetOrAddFeature(model.FeatureTypeTypeDeviceClassification, model.RoleTypeServer), e2.GetOrAddFeature(model.FeatureTypeTypeDeviceClassification, model.RoleTypeServer)}
+	nSrv := 1 + r.Intn(3)
 	srvF = srvF[:nSrv]
 	for _, s := range srvF {
 		s.AddFunctionType(fn, true, true)
@@ -848,6 +928,21 @@ func c08Conc(c *rig.Ctx) {
 		p.Ctr = uint64(i+1) * 100000
 		p.Announce(rkAnnounceList(clients))
 		p.Tap.Take()
+	}
+	// in every second case a peer whose connection cannot send is the first subscriber of every server feature
+	var mute *rig.Peer
+	if c.Index%2 == 1 {
+		mute = addMutePeer(w, 0)
+		defer w.Local.RemoveRemoteDeviceConnection(mute.Ski)
+		var subs []muteSub
+		for _, sf := range srvF {
+			subs = append(subs, muteSub{clients[0].Addr(mute, true), sf.Address(), model.FeatureTypeTypeDeviceClassification})
+		}
+		if why := muteSubscribeFirst(w, mute, rkAnnounceList(clients), subs); why != "" {
+			c.Inconclusive("setup of the mute peer: %s", why)
+			return
+		}
+		c.Count("conc_cases_with_a_mute_first_subscriber", 1)
 	}
 	w.Core.Take()
 
@@ -978,7 +1073,7 @@ func c08Conc(c *rig.Ctx) {
 			}
 		}
 	}
-	hist0 := [2][]porcupine.Operation{}
+	hist0 := make([][]porcupine.Operation, len(srvF))
 	sort.Slice(recs, func(i, j int) bool { return recs[i].call < recs[j].call })
 	reached := 0
 	for _, x := range recs {
@@ -1010,10 +1105,18 @@ func c08Conc(c *rig.Ctx) {
 		// final snapshot: the registry itself
 		m := map[string]bool{}
 		entries := w.Local.SubscriptionManager().SubscriptionsOnFeature(*srvF[si].Address())
+		nMute := 0
 		for _, en := range entries {
+			if mute != nil && en.ClientFeature != nil && en.ClientFeature.Device() == mute.RD {
+				nMute++ // not part of the model: it never shows up in a publish set either
+				continue
+			}
 			m[rkFeatKey(en.ClientFeature)] = true
 		}
-		if len(m) != len(entries) {
+		if mute != nil && nMute != 1 {
+			c.Violate("conc/registry/entry-of-uninvolved-peer-changed", "S%d holds %d entries of the mute peer, which subscribed once before the concurrent phase and never unsubscribed", si, nMute)
+		}
+		if len(m)+nMute != len(entries) {
 			c.Violate("conc/registry/entry-listed-twice", "S%d holds %d entries for %d distinct clients", si, len(entries), len(m))
 		}
 		t := rig.Seq()
@@ -1059,9 +1162,12 @@ func c08Conc(c *rig.Ctx) {
 			sh = append(sh, fmt.Sprintf("%d:%s:%d:%d", pi, pl.op, pl.cli, pl.srv))
 		}
 	}
-	c.Shape(rkHash(append(sh, fmt.Sprint(nSrv, nPub, len(recs)))...))
+	c.Shape(rkHash(append(sh, fmt.Sprint(nSrv, nPub, len(recs), mute != nil))...))
 	c.NonTrivial(decided && reached > 0)
 	c.Count("conc_notifies_attributed", int64(reached))
+	if nSrv >= 2 {
+		c.Count("conc_cases_with_servers_in_parent_and_sub_entity", 1)
+	}
 	var st []rkStamp
 	for _, x := range recs {
 		if x.gor != 9 {
